@@ -23,9 +23,22 @@ def _scratch():
             atexit.register(shutil.rmtree, _SCRATCH[pid], True)
     return _SCRATCH[pid]
 
+ABS = '/ABS/'       # placeholder for "the absolute path of the scratch directory" in names and contents
+
+def _subst(o, a, b):
+    if isinstance(o, str):
+        return o.replace(a, b)
+    if isinstance(o, (list, tuple)):
+        return [_subst(x, a, b) for x in o]
+    return o
+
 def _in_tree(files, f):
-    """write the (name, content) files into a fresh directory, run f() with that directory as
-    cwd (auxfile opens \\@input names relative to the cwd), remove it again"""
+    """lay the files out in a fresh directory and run f(d) with that directory as cwd (auxfile opens
+    \\@input names as written, i.e. relative to the cwd), remove it again.  `files` maps paths AS WRITTEN
+    to contents: a name may have directory parts, may be spelled in several ways (./x, d/../x: each
+    spelling is an entry with the same content) and may start with /ABS/ = the absolute path of the
+    scratch directory (also inside contents).  Returns f's result with the real directory replaced
+    by /ABS/ again."""
     base = _scratch()
     d = os.path.join(base, 't')
     os.mkdir(d)
@@ -33,14 +46,18 @@ def _in_tree(files, f):
     try:
         seen = set()
         for name, content in files:
-            n = S(name)
-            if n in seen:
+            n = S(name).replace(ABS, d + '/')
+            if not n or n.endswith('/'):
                 continue
-            seen.add(n)
-            with open(os.path.join(d, n), 'wb') as fh:
-                fh.write(S(content).encode('utf-8'))
+            real = os.path.normpath(os.path.join(d, n))
+            if real in seen or not real.startswith(d + '/'):
+                continue
+            seen.add(real)
+            os.makedirs(os.path.dirname(real), exist_ok=True)
+            with open(real, 'wb') as fh:
+                fh.write(S(content).replace(ABS, d + '/').encode('utf-8'))
         os.chdir(d)
-        return f()
+        return _subst(f(d), d + '/', ABS)
     finally:
         os.chdir(cwd)
         shutil.rmtree(d, ignore_errors=True)
@@ -99,24 +116,86 @@ def _run_mode(mode, body):
             else:
                 val = body()
         except PybtexError as e:
-            return norm([1, _describe_exc(e), reported()])
+            return [1, _describe_exc(e), reported()]
         except RecursionError:
             return [2]
         except Exception as e:
             return [2]
-        return [0, norm(val) + [norm(reported())]]
+        return [0, list(val) + [reported()]]
     finally:
         errors.set_strict_mode(True)
         errors.error_code = 0
         pybtex.io.stderr = old_stderr
 
+def standins(strings):
+    """the model's lower() is ASCII.  Non-ASCII letters whose lower() differs from themselves (E-acute,
+    capital sigma ...) are shown to the model as ASCII stand-ins with the same lower-classes: U -> X,
+    U.lower() -> x for a letter pair X/x that occurs nowhere in the case.  Every other non-ASCII
+    character lowers to itself in Python and in the model alike and is passed unchanged.
+    strings: lists of code points.  Returns {code point: stand-in code point}."""
+    used = set()
+    for t in strings:
+        used.update(t)
+    ups = sorted(c for c in used if c > 127 and len(chr(c).lower()) == 1 and ord(chr(c).lower()) != c and ord(chr(c).lower()) > 127)
+    if not ups:
+        return {}
+    free = [x for x in range(97, 123) if x not in used and (x - 32) not in used]
+    table = {}
+    for c in ups:
+        lo = ord(chr(c).lower())
+        if lo in table:                      # a second upper-case form of the same letter: outside the domain
+            continue
+        if not free:
+            break
+        x = free.pop()
+        table[c] = x - 32
+        table[lo] = x
+    return table
+
+def _case_strings(fn, arg):
+    if fn == 1:
+        return [t for f in arg[1] for t in f]
+    if fn == 5:
+        return [t for f in arg[2] for t in f] + [t for t in arg[0]] + [arg[1]]
+    if fn == 4:
+        return [arg[1]] + [v for _, v in arg[3]]
+    return []
+
+def _map(o, table):
+    if isinstance(o, list):
+        return [_map(x, table) for x in o]
+    return table.get(o, o)
+
+def model_arg(fn, arg):
+    table = standins(_case_strings(fn, arg)) if fn in (1, 4, 5) else {}
+    if not table:
+        return arg
+    if fn == 1:
+        return [arg[0], _map(arg[1], table)]
+    if fn == 5:
+        return [_map(arg[0], table), _map(arg[1], table), _map(arg[2], table)]
+    return [arg[0], _map(arg[1], table), arg[2], [[c, _map(v, table)] for c, v in arg[3]]]
+
+def _finish(fn, arg, out):
+    """norm the wrapper's result; when the case has stand-ins, append the table (canon applies it, so
+    that the comparison happens in the model's alphabet; the oracle sees the real characters)"""
+    out = norm(out)
+    table = standins(_case_strings(fn, arg))
+    if table and out[0] in (0, 1):
+        out = out + [[[k, v] for k, v in sorted(table.items())]]
+    return out
+
 def impl_parse(arg):
     from pybtex import auxfile
     mode, files = arg
     def body():
-        d = auxfile.parse_file(S(files[0][0]) if files else '')
+        d = auxfile.parse_file(top[0])
         return [d.citations, [d.style] if d.style is not None else [], [d.data] if d.data is not None else []]
-    return _in_tree(files, lambda: _run_mode(mode, body))
+    top = ['']
+    def run(d):
+        top[0] = (S(files[0][0]) if files else '').replace(ABS, d + '/')
+        return _run_mode(mode, body)
+    return _finish(1, arg, _in_tree(files, run))
 
 def impl_match(arg):
     from pybtex.auxfile import AuxData
@@ -130,7 +209,7 @@ def impl_lines(arg):
     def body():
         with pybtex.io.open_unicode('f.aux') as fh:
             return [norm(l) for l in fh]
-    return _in_tree([[norm('f.aux'), arg[0]]], body)
+    return _in_tree([[norm('f.aux'), arg[0]]], lambda d: body())
 
 def impl_handlers(arg):
     from pybtex.auxfile import AuxData, AuxDataContext
@@ -144,7 +223,7 @@ def impl_handlers(arg):
             if c != 3:
                 a.handle_command(CMDS[c], S(v))
         return [a.citations, [a.style] if a.style is not None else [], [a.data] if a.data is not None else []]
-    return _run_mode(mode, body)
+    return _finish(4, arg, _run_mode(mode, body))
 
 def impl_makebib(arg):
     from pybtex import Engine
@@ -155,8 +234,12 @@ def impl_makebib(arg):
         def format_from_files(self, bib_files_or_filenames, style, citations=['*'], **kw):
             return [bib_files_or_filenames, [style] if style is not None else [], citations]
     def body():
-        return E().make_bibliography(S(files[0][0]) if files else '', style=S(style[0]) if style else None, bib_format=Fmt)
-    return _in_tree(files, lambda: _run_mode(1, body))
+        return E().make_bibliography(top[0], style=S(style[0]) if style else None, bib_format=Fmt)
+    top = ['']
+    def run(d):
+        top[0] = (S(files[0][0]) if files else '').replace(ABS, d + '/')
+        return _run_mode(1, body)
+    return _finish(5, arg, _in_tree(files, run))
 
 FILES = ('L', ('T', 'X', 'S'))
 FUNCS = {
@@ -176,6 +259,9 @@ def _cerr(e):
 def canon(fn, r):
     if not isinstance(r, list) or not r:
         return r
+    if fn in (1, 4, 5) and ((r[0] == 0 and len(r) == 3) or (r[0] == 1 and len(r) == 4)):
+        table = {k: v for k, v in r[-1]}      # implementation output of a case with stand-ins
+        r = [r[0]] + _map(r[1:-1], table)
     if fn in (1, 4, 5):
         if r[0] == 3:           # model: nesting fuel exhausted == implementation: RecursionError
             return [2]
@@ -423,10 +509,77 @@ MENU_T3 = ['\\bibstyle{s}', '\\bibstyle{t}', '\\bibdata{d,e}', '\\citation{a}', 
 MENU_BR = ['\\bibstyle{s{0}}', '\\bibstyle{t%s}', '\\bibdata{d{b},e\\f,{0}}', '\\citation{Foo{x}}', '\\citation{foo{x}}',
            '\\citation{Baz{0},baz{0}}', '\\citation{%s,%S}', '\\citation{a\\b,A\\b,{}}']
 
+def _canon_path(p):
+    """where a path as written lies in the scratch tree (ABS-relative, normalised)"""
+    import posixpath
+    q = p[len(ABS):] if p.startswith(ABS) else p
+    return posixpath.normpath(q)
+
+def _resolvable(pth, disk):
+    """every directory the path walks through exists in the tree (build/../x needs a build/)"""
+    import posixpath
+    q = pth[len(ABS):] if pth.startswith(ABS) else pth
+    parts = q.split('/')[:-1]
+    cur = ''
+    for part in parts:
+        cur = posixpath.normpath(posixpath.join(cur, part)) if cur or part else part
+        if cur in ('', '.'):
+            cur = ''
+            continue
+        if cur.startswith('..') or not any(k.startswith(cur + '/') for k in disk):
+            return False
+    return True
+
+def case_files(top, disk, mentioned):
+    """the file map of a case: paths AS WRITTEN -> content.  disk: canonical relative path -> content (what lies
+    in the tree); every spelling in `mentioned` (and the top path) that leads to an existing file gets an entry
+    with that file's content, so the map says what the code must open for each name it meets."""
+    out = []
+    keys = set()
+    for pth in [top] + list(mentioned) + sorted(disk):
+        c = _canon_path(pth)
+        if pth not in keys and c in disk and not c.startswith('..') and _resolvable(pth, disk):
+            keys.add(pth)
+            out.append([pth, disk[c]])
+    if not out or out[0][0] != top:
+        out.insert(0, [top, disk.get(_canon_path(top), '')]) if _canon_path(top) in disk else None
+    return out
+
+def gen_dirs(quick):
+    """directory structure: the top file through a relative path with a directory part and through an
+    absolute path; \\@input names with and without directory parts, spelled in several ways; decoys at the
+    doubled path (what would be opened if a name were joined onto the including file's directory)"""
+    inputs = ['ch.aux', 'build/ch.aux', ABS + 'build/ch.aux', './ch.aux', 'build/../ch.aux', ABS + 'ch.aux']
+    chs = {'ch.aux': '\\citation{root}\n', 'build/ch.aux': '\\citation{inbuild}\n\\bibstyle{u}\n',
+           'build/build/ch.aux': '\\citation{decoy}\n'}
+    for top in ['top.aux', 'build/top.aux', ABS + 'build/top.aux', ABS + 'top.aux', './build/top.aux']:
+        for x in inputs:
+            for mask in range(8):
+                disk = {k: v for i, (k, v) in enumerate(sorted(chs.items())) if mask >> i & 1}
+                disk[_canon_path(top)] = '\\bibstyle{s}\n\\bibdata{d}\n\\@input{%s}\n\\citation{k}\n\\bibstyle{t}\n' % x
+                files = case_files(top, disk, inputs)
+                for mode in (0, 1, 2):
+                    yield [mode, files]
+    # two levels: parts/one.aux -> parts/two.aux -> three.aux, decoys at parts/parts/two.aux and parts/three.aux
+    pool = {'parts/two.aux': '\\citation{two}\n\\@input{three.aux}\n\\citation{Two}\n', 'three.aux': '\\citation{three}\n\\bibdata{e}\n',
+            'parts/parts/two.aux': '\\citation{decoy2}\n', 'parts/three.aux': '\\citation{decoy3}\n'}
+    for top in ['parts/one.aux', ABS + 'parts/one.aux']:
+        for mask in range(16):
+            disk = {k: v for i, (k, v) in enumerate(sorted(pool.items())) if mask >> i & 1}
+            disk['parts/one.aux'] = '\\bibdata{d}\n\\@input{parts/two.aux}\n\\bibstyle{s}\n\\bibdata{f}\n'
+            files = case_files(top, disk, ['parts/two.aux', 'three.aux'])
+            for mode in (0, 1, 2):
+                yield [mode, files]
+
+# non-ASCII cite keys: pairs equal under casefold but NOT under lower (distinct keys, nothing to report),
+# pairs equal under lower (one key in two spellings: reported)
+MENU_U = ['\\bibstyle{s}', '\\bibdata{d}', '\\citation{ma\u00df}', '\\citation{mass}', '\\citation{\u017ftone,stone}',
+          '\\citation{\u03c2}', '\\citation{\u03c3}', '\\citation{\u03a3}', '\\citation{\u00c9t\u00e9,\u00e9t\u00e9}', '\\citation{\u00c4rger,\u00e4rger,MASS}']
+
 def doc(lines, term='\n'):
     return ''.join(l + term for l in lines)
 
-KEYS = ['Foo{x}', 'foo{x}', 'Baz{0}', 'baz{0}', '%s', '%S', 'a\\b', 'A\\b', 'k1', 'K1', 'key', 'Key', 'KEY', 'kEy', 'b', 'B', '*', 'x y', 'Knuth:1984', 'knuth:1984', 'a_b', 'A_b', '', ' a', '\u20ac', 'z9']
+KEYS = ['ma\u00df', 'mass', '\u017ftone', 'stone', '\u03c2', '\u03c3', '\u03a3', '\u00c9t\u00e9', '\u00e9t\u00e9', 'Foo{x}', 'foo{x}', 'Baz{0}', 'baz{0}', '%s', '%S', 'a\\b', 'A\\b', 'k1', 'K1', 'key', 'Key', 'KEY', 'kEy', 'b', 'B', '*', 'x y', 'Knuth:1984', 'knuth:1984', 'a_b', 'A_b', '', ' a', '\u20ac', 'z9']
 OTHER = GHOST[:6] + ['\\relax\x0c\\citation{g}', '%\u2028\\bibstyle{u}', '\\relax\x85\\bibdata{q}', '\\relax\x1c\\citation{h}'] + ['\\relax ', '\\newlabel{sec:1}{{1}{1}}', '\\bibcite{k1}{1}', '', '% \\citation{c}', ' \\citation{z}', '\\citationx{q}',
          '\\bibstyle {s}', '\\Citation{a}', '\\providecommand\\hyper@newdestlabel[2]{}', '\\@writefile{toc}{\\contentsline {section}{\\numberline {1}Intro}{1}{}}',
          '\\gdef \\@abspage@last{1}', '\\input{b.aux}', 'citation{a}', '\\\\citation{a}']
@@ -437,7 +590,7 @@ ODD = ['\\citation{a}% }', '\\citation{a', '\\@input{', '\\bibstyle{a}\\bibdata{
 def rand_line(rng, names, me, odd):
     r = rng.random()
     if r < 0.45:
-        ks = [rng.choice(KEYS[:20] if not odd else KEYS) for _ in range(rng.choice([1, 1, 1, 2, 3]))]
+        ks = [rng.choice(KEYS[:29] if not odd else KEYS) for _ in range(rng.choice([1, 1, 1, 2, 3]))]
         return '\\citation{%s}' % ','.join(ks)
     if r < 0.55:
         return '\\bibstyle{%s}' % rng.choice(['plain', 'alpha', 'unsrt', 's', 'st{0}', 'a%s'])
@@ -453,6 +606,11 @@ def rand_tree(rng, odd=False):
     """1..4 files; file i inputs only files j > i (acyclic) unless odd"""
     n = rng.choice([1, 1, 2, 2, 3, 4])
     names = ['a.aux', 'b.aux', 'c.aux', 'chap-d.aux'][:n]
+    layout = rng.random()
+    if layout < 0.25:
+        names = ['out/a.aux', 'out/b.aux', 'c.aux', 'out/sub/d.aux'][:n]
+    elif layout < 0.35:
+        names = [ABS + 'out/a.aux', 'out/b.aux', ABS + 'c.aux', 'out/sub/d.aux'][:n]
     files = []
     for i, name in enumerate(names):
         later = names[i + 1:]
@@ -475,6 +633,9 @@ def rand_tree(rng, odd=False):
         else:
             content = doc(lines)
         files.append([name, content])
+    if layout < 0.35 and rng.random() < 0.5:      # decoys where a name joined onto the includer's directory would lead
+        for dec in ['out/out/b.aux', 'out/c.aux', 'out/out/sub/d.aux']:
+            files.append([dec, '\\citation{decoy}\n\\bibstyle{decoy}\n'])
     return files
 
 def mutate(rng, s):
@@ -567,6 +728,16 @@ def gen(tier, rng):
         for ls in itertools.product(MENU_BR, repeat=n):
             for mode in (0, 1, 2):
                 yield ('exhaustive_braces', 1, [mode, [[TOP, doc(ls)]]])
+    # -- directory structure in the real-file tree
+    for arg in gen_dirs(quick):
+        yield ('exhaustive_dirs', 1, arg)
+    # -- non-ASCII keys
+    for n in range(1, 4 if quick else 5):
+        for ls in itertools.product(MENU_U, repeat=n):
+            if not any(ord(ch) > 127 for l in ls for ch in l):
+                continue
+            for mode in (0, 1, 2):
+                yield ('exhaustive_unicode', 1, [mode, [[TOP, doc(ls)]]])
     # -- exhaustive nesting: a.aux -> b.aux -> c.aux | a.aux | b.aux
     NT, NB = (3, 2) if quick else (3, 3)
     for n in range(1, NT + 1):
@@ -634,7 +805,8 @@ EXHAUSTIVE = {'quick': 'all a.aux of <= 4 lines over a 9-line menu x 3 b.aux x 3
 TRUSTED_BASE = ['modelled (not verified) code: pybtex/auxfile.py (all of it), pybtex/errors.py report_error, the line iteration of io.open in text mode (universal newlines), Engine.make_bibliography lines 45-59',
                 'command_re is a hand-written matcher (Model/Aux.v match_command) with a proved characterisation, compared with the live re object on an exhaustive small-scope sweep',
                 'the file system is a function name -> content; pybtex.io.open_unicode / kpsewhich are exercised through real files in a temporary directory']
-ASSUMPTIONS = ['str.lower is modelled on ASCII; cite keys with non-ASCII letters are outside the claimed domain (DESIGN.md 2.2)',
+ASSUMPTIONS = ['str.lower is modelled on ASCII; non-ASCII letters that are their own lower() are exact in the model, non-ASCII upper-case letters are shown to the model as unused ASCII stand-in pairs with the same lower-classes (model_arg / standins); letters whose lower() is longer than one character or ASCII (U+0130, U+212A) are outside the domain',
+               'the file system is a function from the path AS WRITTEN (in parse_file(...) or \\@input{...}) to a content: the harness lays the files out in a directory tree and lists every spelling the case mentions',
                'a file is read as the sequence of lines io.open(..., newline=None) yields (lines_of, compared on every run); decoding errors are outside the domain',
                'the model bounds \\@input nesting by fuel (64 in the runner); Python bounds it by its recursion limit: cyclic inputs end in RecursionError there and in NoFuel in the model, compared as equal']
 PARTIAL = []
